@@ -356,6 +356,9 @@ func (rp *RepData) loadFromJSON(logger *slog.Logger, vodFS fs.FS, repDataDir, as
 	if err := json.Unmarshal(data, &rp); err != nil {
 		return true, err
 	}
+	if rp == nil { // the JSON document null
+		return true, fmt.Errorf("repdata holds no representation")
+	}
 	err = rp.addRegExpAndInit(logger, vodFS, assetPath)
 	if err != nil {
 		return true, fmt.Errorf("addRegExpAndInit: %w", err)
